@@ -63,6 +63,25 @@ claim("C05",
       "endpoint agree on KDF constants, salt scheme, cipher constructor, shards, and pass the cipher on. Structural; chain validation is crypto/x509's.",
       "Not decided: x509 chain validation and expiry, kcp cipher behaviour.")
 
+claim("C03",
+      "backward provenance through fields, captured variables and call sites; who-may-write/call tables; control-dependence on an equality guard",
+      "Decides the dataflow and guard facts the routing guarantee reduces to, for every server kind and call site: the list handed to "
+      "AcceptConnection derives only from Channels.Filter(<the endpoint's own allow-list>); the handler's list is written only from that "
+      "parameter; Channel.OpenConnection is invoked only under protocol == \"/\"+Name() of the same channel value; name matching uses ==/!= "
+      "only; Filter returns Find results of listed names under err==nil and the whole table only for an empty list; NetworkChannel dials its "
+      "own (scheme, host) and net.Dial occurs nowhere else in package server; handlers are registered as \"/\"+Name() over the session's own list. "
+      "Near-sufficient given go-multistream's exact match.",
+      "Not decided: that the dialled socket is the configured service; allow-list decoding; go-multistream/smux internals (exact match trusted).")
+
+claim("C06",
+      "path-fact enumeration on SSA with per-path evaluation of literal fields selected by phis; provenance of version values; who-may-call for buffered readers",
+      "Decides on every feasible SSA path that success is reported only after all admission checks: server handshake (parsed, announce method, "
+      "non-empty negotiated version), server upgrade (parsed, GET, Connection: upgrade, Upgrade == socketace/<negotiated>; failed checks re-bind the "
+      "response to a literal whose constant status != 101, evaluated per path), NewServerConnection (both succeeded), negotiateVersion (a supported "
+      "element equal to a client element), client (200 / 101 only); and that exactly one buffered reader exists per connection and handshake reads go "
+      "through it, so the outcome cannot depend on segmentation.",
+      "Not decided: net/textproto on arbitrary bytes, header size limits, index safety of the two line parsers.")
+
 for pid in ["C01","C02","C03","C04","C05","C06","C07","C08","C09","C10","C11","C12","C13","C14","C15","C16","C17","C18"]:
     if pid not in P:
         na(pid, PENDING)
